@@ -78,14 +78,27 @@ Inductive icall :=
 | ICreatePlan (p : params) (meta_matches_wire : option bool) (d : doc) (has_sig : bool)
 | IPerform (plan : bytes) | IReboot.
 
+(* answers of the environment are part of the trace: the trace is a complete interaction history *)
+Inductive panswer := PTiming (t : timing) | PDecision (d : decision) | PUDecision (u : udecision) | PBool (b : bool).
+Inductive ianswer := IPlan (p : option bytes) | IPerformed (a : perform_answer) | IRebooted (ok : bool).
+
 Inductive wait := WUntil (t : pct) | WFor (d : Z).
 Inductive store_op := SSetInt (k : bytes) (v : Z) | SSetStr (k : bytes) (v : bytes) | SRemove (k : bytes) | SCommit.
 Inductive reply := Started | AlreadyRunning | Throttled.
 
-Record wire := { w_uri : bytes; w_headers : list (bytes * bytes); w_body : bytes }.
+(* a request on the wire: the bytes, plus the structured content of the body (what the harness reads back by
+   parsing the JSON it received; what the model computes from the builder) *)
+Record wapp := {
+  wa_id : bytes; wa_cohort : cohort;
+  wa_uc : option (bool * bool);                   (* updatecheck: (updatedisabled, sameversionupdate) *)
+  wa_ping : option (option N * option N);         (* ping: (ad, rd) *)
+  wa_events : list (N * N * option N * option bytes * option bytes) (* type, result, errorcode, previous, next version *) }.
+Record wsum := { ws_source : isource; ws_session : option bytes; ws_request : option bytes; ws_apps : list wapp }.
+Record wire := { w_uri : bytes; w_headers : list (bytes * bytes); w_body : bytes; w_sum : wsum }.
 
 Inductive action :=
-| AEvent (e : sm_event) | APolicy (q : pquery) | AHttp (w : wire) | AInstaller (c : icall)
+| AEvent (e : sm_event) | APolicy (q : pquery) (a : panswer) | AHttp (w : wire) (o : http_outcome)
+| AInstaller (c : icall) (a : ianswer) | AClock (c : ctime)
 | ATimer (w : wait) | AStore (op : store_op) (ok : bool) | AMetric (m : metric) | AReply (id : N) (r : reply).
 
 (* ---------- the environment ---------- *)
@@ -125,7 +138,7 @@ Definition upd_trace (e : env) (t : list action) : env :=
 Definition emit (a : action) : M unit := fun e => (Some tt, upd_trace e (a :: e_trace e)).
 
 (* --- clock --- *)
-Definition now : M ctime := fun e =>
+Definition read_clock : M ctime := fun e =>
   match e_clock e with
   | r :: rest =>
       (Some {| wall := fst r; mono := snd r |},
@@ -137,6 +150,8 @@ Definition now : M ctime := fun e =>
           e_draws := e_draws e; e_guids := e_guids e; e_nonces := e_nonces e; e_trace := e_trace e |})
   | [] => (Some {| wall := fst (e_last_clock e); mono := snd (e_last_clock e) |}, e)
   end.
+(* every reading of the time source is recorded in the trace *)
+Definition now : M ctime := c <- read_clock ;; emit (AClock c) ;;; ret c.
 
 (* --- answer queues: pop with a default once exhausted --- *)
 Definition set_queues (e : env) nt al cs rn ra ht pl pf rb bo : env :=
